@@ -28,6 +28,19 @@ _FLOORS_QUICK = {
     "pairs.essential.dim1": 4500, "pairs.essential.dim2": 6000, "pairs.essential.dim3": 1500, "pairs.finite.zero_length": 150000,
     # derived queries
     "cmp.betti_numbers": 11000, "cmp.persistent_betti_numbers": 35000, "cmp.intervals_in_dimension": 75000, "cmp.output_diagram": 11000,
+    # input classes added after the audit of the quantifier
+    "complex.st_intfv": 400, "complex.st_keyi8": 600, "keyi8.over_limit": 70, "keyi8.at_limit": 60,
+    "intfv.with_negative_values": 150, "guard.output_diagram_integral_negative_birth": 250,
+    "order.custom_ties": 500, "order.custom_ties.differs_from_default": 330, "order.ignore_infinite": 450,
+    "order.ignore_infinite.with_ignored_simplices": 350, "hasse.from_stream": 250,
+    "cubical.from_vertices": 130, "cubical.periodic_side_1": 50, "cubical.periodic_side_2": 45, "cubical.with_infinite_cells": 45,
+    "cubical.dim5": 5,
+    "tuple.reinit.multi.other_first": 400, "tuple.reinit.multi.same_twice": 200, "tuple.reinit.zp.other_first": 600,
+    "tuple.reinit.zp.same_twice": 300, "cmp.reinit_field_state": 600, "cmp.reinit_then_compute": 1500,
+    "guard.multi_field_init": 50, "guard.multi_field_init.range_end_INT_MAX": 10, "tuple.mf_range.range_end=INT_MAX": 16,
+    "tuple.mf_range.range=just_below_INT_MAX": 8, "tuple.mf_range.range=above_46337": 16, "tuple.mf_range.range=wide": 16,
+    "tuple.mf_range.range_start<2": 16, "tuple.mf_range.range=narrow": 8, "primes_in_wide_ranges": 250,
+    "cmp.pairs.zp_characteristic": 8000,
     # oracle / library validation
     "library.space_with_torsion": 60, "cmp.library_betti_closed_form": 5000,
     "_distinct_nontrivial": 2400,
@@ -36,31 +49,55 @@ _FLOORS_QUICK = {
 SPEC = {
     "property": "C02",
     "rule": "one case = one filtered complex + 3 (Z_p) or 2 (multi-field) parameter tuples (field, min_interval_length, persistence_dim_max) run "
-            "one after the other on the SAME complex object (stale keys of the previous run included). Complexes: (rand) random simplicial "
+            "one after the other on the SAME complex object (stale keys of the previous run included); in 1 tuple out of 8 "
+            "init_coefficients is called twice on the Persistent_cohomology object before computing (first with other coefficients, or "
+            "twice the same; both coefficient classes; for the multi-field the state of a twice-initialised Multi_field is also compared "
+            "with the Chinese-remainder idempotents of the last range and with a fresh object). Complexes: (rand) random simplicial "
             "complexes on <= 9 vertices, dimension <= 4, or k-skeleta of simplices; (tors) the torsion library c02_torsion_library.h - 6-vertex "
             "RP^2, Moore spaces M(Z_m,1) m=2..7, Klein bottle (3x3 and 4x4 grids), torus, spheres, their suspensions, double suspension of RP^2, "
             "wedges, disjoint unions - each optionally coned off completely (later stage of the filtration) or over a random subcomplex; "
-            "(cub) cubical grids of dimension 1-4 from random top-cell values, plain and (partially) periodic. Values: random monotone, either all "
+            "(cub) cubical grids of dimension 1-5 from random top-cell OR vertex values (input_top_cells = false), plain and (partially) "
+            "periodic with periodic sides of 1-4 cells, 1 case in 6 with some input values at +infinity (then min_interval_length >= 0). Values: random monotone, either all "
             "distinct (random linear extension), on a coarse grid of 2-16 levels (heavy ties), by stage, by dimension or constant; vertex labels "
-            "permuted / sparse (contiguous for fast_persistence). Complex types: Simplex_tree with default / fast_persistence (float) / "
-            "full_featured / 8-bit-key options (must throw out_of_range above 255 simplices, must work up to 255), Hasse_complex built from a "
-            "keyed tree that is then destroyed, Bitmap_cubical_complex over both bases. Fields: Z_p, p in {2,3,5,7,11,13,251} (46337 in its own "
-            "config), multi-field ranges [2,2],[2,3],[3,3],[3,5],[2,5],[2,7],[4,7],[5,13],[2,13],[2,31],[11,11]; min_interval_length in "
+            "permuted / sparse (contiguous for fast_persistence). Filtration order of a Simplex_tree: the default one, or (1 in 8) "
+            "initialize_filtration(Comparator, Ignorer) with a comparator that keeps (value, dimension) and re-breaks the remaining ties at "
+            "random, or (1 in 7) a random upward-closed set of simplices at +infinity and initialize_filtration(ignore_infinite_values = "
+            "true) - the expected diagram is that of the cells the range exposes, 'top dimension' stays dimension() of the whole complex. "
+            "Complex types: Simplex_tree with default / fast_persistence (float) / full_featured / int Filtration_value (values 2v+off, "
+            "off in {0,3,5,-1,-3,-8,-1000}: negative births, never-ending intervals end at INT_MAX) / uint8_t and int8_t Simplex_key "
+            "options (must throw out_of_range above 255 / 127 simplices, must work up to there), Hasse_complex built from a keyed tree "
+            "that is then destroyed or (1 in 3) read by operator>> from the text format, Bitmap_cubical_complex over both bases. Fields: Z_p, p in {2,3,5,7,11,13,251} (46337 in its own "
+            "config), multi-field ranges [2,2],[2,3],[3,3],[3,5],[2,5],[2,7],[4,7],[5,13],[2,13],[2,31],[11,11], and in config mf_ranges "
+            "(complexes <= 300 / 120 simplices) [2,100],[2,47],[90,100],[0,5],[1,3],[46337,46349],[65521,65537],[2147483587,2147483646],"
+            "[2147483629,INT_MAX],[INT_MAX,INT_MAX], where Multi_field::init is first run alone in a forked copy of the process with a "
+            "1 s CPU budget (it must return); min_interval_length in "
             "{-1,0,.5,1,10} or a random integer; persistence_dim_max in {false,true}. Compared: the multiset {(dim, birth value, death value)} of "
             "get_persistent_pairs against oracle/zp_reduce.h run on the cells in the order filtration_simplex_range() exposes (independent "
             "boundary signs), after dropping intervals with death-birth <= min_interval_length (in the complex' Filtration_value arithmetic) and "
             "classes of dimension >= dimension + persistence_dim_max; in multi-field mode, for EVERY prime q of the range, the intervals whose "
             "product q divides against the Z_q diagram, and every product must divide the product of the range's primes; then betti_numbers, "
             "betti_number, persistent_betti_numbers/_number (3 random (from,to)), intervals_in_dimension (d = -1..dim+2) and the parsed "
-            "output_diagram against a naive recount from the reported pairs. non-trivial = some compared diagram has a finite interval of "
+            "output_diagram against a naive recount from the reported pairs (a never-ending interval ends at +infinity, or at the largest "
+            "value of a Filtration_value without infinity; with such a type and a negative birth output_diagram is first tried in a forked "
+            "copy of the process: it must not die of undefined behaviour); in Z_p mode every pair must carry p. non-trivial = some compared diagram has a finite interval of "
             "positive length in dimension >= 1; distinct by hash of the logged complex and parameters.",
     "assumptions": [
-        "complexes are built by insertions only, so dimension() is exact; 'top dimension' is the largest cell dimension (checked against dimension())",
-        "filtration values are finite dyadic numbers (exact in float and double, printed exactly by output_diagram); no NaN, no infinity",
+        "complexes are built by insertions only, so dimension() is exact; 'top dimension' is the largest cell dimension of the whole complex "
+        "(checked against dimension()), also when the filtration ignores the simplices at +infinity",
+        "filtration values are dyadic numbers (exact in float and double, printed exactly by output_diagram) or small integers for the int "
+        "Filtration_value; no NaN; +infinity only (a) on simplices that initialize_filtration(true) then ignores and (b) on cubical cells, "
+        "and then only with min_interval_length >= 0 (whether a pair [inf,inf) has length 0 for a negative minimum length is left open); "
+        "no -infinity",
+        "NOT covered (outside the property as read): orders given to initialize_filtration(Comparator, Ignorer) along which the values are "
+        "not monotone; compute_persistent_cohomology called twice on one object; write_output_diagram (same comparator as output_diagram, "
+        "which is exercised); negative range bounds of the multi-field",
+        "the two forked guards (Multi_field::init alone with 1 s of CPU, output_diagram with 5 s) have budgets 3-4 orders of magnitude above "
+        "the cost of a correct run; a correct library never meets them",
         "the filtration order exposed by the complex is checked to be a valid filtration first (C03 / C13 own that property)",
         "diagrams are compared as value multisets including zero-length intervals when min_interval_length < 0, not as cell pairings",
         "cubical handles are bitmap positions (mixed-radix doubled coordinates, first direction fastest); cross-checked per cell through "
-        "dimension() and boundary_simplex_range(); periodic sides >= 3",
+        "dimension() and boundary_simplex_range(); periodic sides >= 1 (a side of 1 makes both facets of an edge the same vertex: the "
+        "two incidences cancel in the oracle)",
         "non-prime / out-of-range characteristics (config refused) are only required not to cause a memory error or UB; whether they throw is counted, not judged",
         "trusted: oracle/zp_reduce.h, c02_torsion_library.h (validated against closed-form Betti numbers by config lib_selfcheck and inside every "
         "library case over Z_2 and Z_3), c02_cubical_model.h, GMP, libstdc++",
@@ -71,19 +108,25 @@ SPEC = {
         _simplicial("st_full", "c02_st_full.cpp", 400, 6000),
         _simplicial("st_key8", "c02_st_key8.cpp", 400, 6000),
         _simplicial("hasse", "c02_hasse.cpp", 400, 6000),
+        _simplicial("st_intfv", "c02_st_intfv.cpp", 200, 3000),
+        _simplicial("st_keyi8", "c02_st_keyi8.cpp", 300, 4500),
         {"name": "cubical", "src": ["c02_cubical.cpp"], "variant": "asan", "libs": ["-lgmpxx", "-lgmp"], "chunk": 10,
          "configs": {"cub_zp": _cfg(400, 8000), "cub_mf": _cfg(400, 8000)}},
         {"name": "misc", "src": ["c02_misc.cpp"], "variant": "asan", "libs": ["-lgmpxx", "-lgmp"], "chunk": 1,
-         "configs": {"lib_selfcheck": _cfg(150, 3000), "bigprime": _cfg(4, 16), "refused": _cfg(24, 240)}},
+         "configs": {"lib_selfcheck": _cfg(150, 3000), "bigprime": _cfg(4, 16), "refused": _cfg(24, 240),
+                     "mf_ranges": _cfg(60, 900)}},
     ],
     "floors": {"quick": dict(_FLOORS_QUICK), "thorough": {k: 10 * v for k, v in _FLOORS_QUICK.items() if k != "tuple.p46337"}},
     "exhaustive": {"quick": False, "thorough": False},
     "manifest": {
         "text": "Runtime monitor under ASan+UBSan: thousands of filtered complexes (random simplicial complexes, a validated library of torsion "
                 "spaces - RP^2, Moore spaces M(Z_m,1), Klein bottle, suspensions, wedges, unions, cone-offs - and cubical grids incl. periodic "
-                "ones) are given to Persistent_cohomology through Simplex_tree (4 option sets incl. 8-bit keys), Hasse_complex and "
-                "Bitmap_cubical_complex, over Z_p (p = 2..251 and 46337) and over multi-field prime ranges, with every combination class of "
-                "min_interval_length and persistence_dim_max. The reported pairs are compared, as multisets of (dimension, birth, death), with a "
+                "ones) are given to Persistent_cohomology through Simplex_tree (6 option sets incl. signed / unsigned 8-bit keys and an int "
+                "Filtration_value with negative values; default, tie-re-breaking custom and infinity-ignoring filtration orders), Hasse_complex "
+                "(from a tree or read from a stream) and Bitmap_cubical_complex (from top cells or vertices, periodic sides from 1 cell, cells "
+                "at +infinity), over Z_p (p = 2..251 and 46337) and over multi-field prime ranges (narrow, wide, above 46337, ending at "
+                "INT_MAX), with every combination class of min_interval_length and persistence_dim_max, also after a second init_coefficients "
+                "on the same object. The reported pairs are compared, as multisets of (dimension, birth, death), with a "
                 "naive textbook column reduction over the same field run on the filtration order the complex itself exposes; in multi-field mode "
                 "the comparison is made for every prime of the range through the carried product; Betti numbers, persistent Betti numbers, "
                 "per-dimension interval lists and the printed diagram are recounted from the pairs. Held on what was observed, not a proof.",
